@@ -446,11 +446,18 @@ def finish(rep, level="other", exhaustive=False):
         kidx[(f["property"], f["rule"], f["key"])] = f
     ev_path = os.path.join(os.environ.get("QV_EVIDENCE_DIR", os.path.join(VERIF, "evidence")), rep.prop + ".json")
     # floors
+    # vacuity guard: `floor` is the instance count confirmed by hand on the pinned tree.  A rule that suddenly matches far fewer sites has
+    # lost its anchors (checker error).  A small drop is what legitimate edits do (a site merged into a helper, an early return removed),
+    # so the guard trips below 60 % of the confirmed count (and always at 0 when the count was positive); lost sites that matter are
+    # reported by the rules themselves as UNDECIDED / anchor violations.
     for rid, r in rep.rules.items():
-        if r["instances"] < r["floor"]:
+        if not r["floor"]:
+            continue
+        threshold = max(1, (r["floor"] * 6) // 10)
+        if r["instances"] < threshold:
             rep.error(
-                "rule %s matched %d instances, below the floor %d confirmed by hand on the pinned tree (anchor lost?)"
-                % (rid, r["instances"], r["floor"])
+                "rule %s matched %d instances, below the vacuity threshold %d (60%% of the %d confirmed by hand on the pinned tree): anchors lost?"
+                % (rid, r["instances"], threshold, r["floor"])
             )
     new, listed = [], []
     seen = set()
